@@ -1,4 +1,4 @@
-(* Oracle: the executable face of the model.  One entry point [run engine line]:
+(* Oracle: the executable face of the model.  One entry point [run_engine engine line]:
    [line] is the wire text of  List [input; impl_obs]  produced by the Go harness,
    the answer is   ("=" | "!") props* TAB wire(model_obs)
    where "=" means the implementation's observation equals the model's, and props are the ids of
@@ -158,8 +158,12 @@ Fixpoint stmt_of_node (fuel : nat) (n : node) : option stmt :=
   | O => None
   | S f =>
     match n with
-    | List [Str k; List segs; v] =>
-        match segs_of_nodes segs with
+    | List [Str k; selw; v] =>
+        (* the selector comes as its text and means what the model's parser says it means *)
+        match (match selw with
+               | Str text => match sel_parse text with Ok ps => Some (sel_segs ps) | _ => None end
+               | List segs => segs_of_nodes segs
+               | _ => None end) with
         | None => None
         | Some sel =>
             if str_eqb k (lit "==") then Some (SEq sel v)
@@ -449,6 +453,12 @@ Definition eng_token (inp impl : node) : verdict :=
                      match impl with List [_; Int l] => (12 <=? l)%Z | _ => false end) in
       {| model_obs := m;
          violated := (if c10_ok then [] else [lit "C10"]) ++ (if node_eqb impl m then [] else [lit "C07"]) |}
+  (* a (large) token decoded while other goroutines decode other tokens: accepted exactly when the signature
+     verifies over its own SigPayload (a fact of the case), whatever else is in flight: the decision of
+     env_decode is a function of the envelope alone *)
+  | List [Str op; Str what; Bool sig_ok] =>
+      let m := Str (if sig_ok then lit "accepted" else lit "refused") in
+      {| model_obs := m; violated := if node_eqb impl m then [] else [lit "C06"] |}
   (* an envelope node offered to the three decoders, with the facts about the issuer key *)
   | List [Str op; n; facts] =>
       let hdr := mget "hdr" facts in
@@ -554,6 +564,11 @@ Definition eng_container (inp impl : node) : verdict :=
       let keyed_wrong := negb ok && is_okobs want && match impl with List [a; b] => is_okobs a || is_okobs b | _ => false end in
       {| model_obs := List [m; m];
          violated := c17 ok ++ (if keyed_wrong then [lit "C08"] else []) |}
+  (* a Read call of the source fails after k bytes (at a boundary between sections): the reader reports it
+     (StreamProofs.read_fault_surfaces: a failed read is never a clean end) *)
+  | List [Str kind; Str fmt; Int k] =>
+      let m := if snd (Stream.run [Data []; Fail]) then Str (lit "refused") else Str (lit "accepted") in
+      {| model_obs := m; violated := c17 (node_eqb impl m) |}
   | _ => bad
   end.
 
@@ -603,6 +618,16 @@ Definition eng_stream (inp impl : node) : verdict :=
       let m := List [List []; List cuts; List []; Bool true] in
       (* impl = [offsets where an injected read error was swallowed; offsets where early EOF succeeded;
                  write calls whose failure was swallowed; chunkings and writers agree with the buffered call] *)
+      {| model_obs := m; violated := c18 (node_eqb impl m) |}
+  (* a well-formed CAR given by the lengths of its sections (header first), cut after k bytes: by
+     CarCutProofs.read_car_cut the prefix is readable exactly when the cut falls between two sections *)
+  | List [Str kind; List lens; Int k; Int _] =>
+      let fix at_boundary (ls : list node) (acc : Z) : bool :=
+        match ls with
+        | Int l :: r => let acc' := (acc + l)%Z in (acc' =? k)%Z || at_boundary r acc'
+        | _ => false
+        end in
+      let m := if at_boundary lens 0%Z then Str (lit "accepted") else Str (lit "refused") in
       {| model_obs := m; violated := c18 (node_eqb impl m) |}
   | _ => bad
   end.
@@ -767,19 +792,19 @@ Definition eng_chain (inp impl : node) : verdict :=
   end.
 
 (* ---------------- engine: args (pkg/args.Args and pkg/meta.Meta as containers; serves C10, C20) ---------------- *)
-Definition run_aop (ci : bool) (st : list node * cont) (op : node) : list node * cont :=
-  let '(sts, a) := st in
+Definition run_aop (ci : bool) (st : list node * cont * list cont) (op : node) : list node * cont * list cont :=
+  let '(sts, a, cls) := st in
   match op with
   | List [Str kind; Str k; v] =>
       if str_eqb kind (lit "add") then
-        match c_add ci a k v with Ok a' => (sts ++ [Bool true], a') | _ => (sts ++ [Bool false], a) end
-      else (* cloneadd: the clone takes the value or refuses it; the original is untouched *)
-        (sts ++ [Bool (is_ok (c_add ci a k v))], a)
+        match c_add ci a k v with Ok a' => (sts ++ [Bool true], a', cls) | _ => (sts ++ [Bool false], a, cls) end
+      else (* cloneadd: the clone takes the value or refuses it; the original is untouched, and the clone keeps what it got *)
+        match c_add ci a k v with Ok a' => (sts ++ [Bool true], a, cls ++ [a']) | _ => (sts ++ [Bool false], a, cls ++ [a]) end
   | List [Str kind; List kvs] =>
       let other := fold_left (fun o e => match e with
                                         | List [Str k; v] => match c_add ci o k v with Ok o' => o' | _ => o end
                                         | _ => o end) kvs [] in
-      (sts ++ [Bool true], c_include a other)
+      (sts ++ [Bool true], c_include a other, cls)
   | _ => st
   end.
 
@@ -787,9 +812,10 @@ Definition eng_args (inp impl : node) : verdict :=
   match inp with
   | List [Str kind; List ops] =>
       let ci := str_eqb kind (lit "args") in
-      let '(sts, a) := fold_left (run_aop ci) ops ([], []) in
-      let m := List [List sts; List (map (fun kv => List [Str (fst kv); snd kv]) a);
-                     (if ci then c_to_ipld a else Null); Bool (c_equals a a)] in
+      let '(sts, a, cls) := fold_left (run_aop ci) ops ([], [], []) in
+      let ents (c : cont) := List (map (fun kv => List [Str (fst kv); snd kv]) c) in
+      let m := List [List sts; ents a;
+                     (if ci then c_to_ipld a else Null); Bool (c_equals a a); List (map ents cls)] in
       {| model_obs := m; violated := if node_eqb impl m then [] else [lit "C10"] |}
   | _ => bad
   end.
@@ -812,7 +838,7 @@ Definition render (impl : node) (v : verdict) : str :=
   (if node_eqb (model_obs v) impl then [61] else [33])
   ++ flat_map (fun p => 32 :: p) (violated v) ++ [9] ++ print_node (model_obs v).
 
-Definition run (engine line : str) : str :=
+Definition run_engine (engine line : str) : str :=
   match find_engine engine engines with
   | None => lit "?unknown engine"
   | Some f =>
